@@ -32,11 +32,13 @@ func init() {
 			"(K-part-dates) StartDates / EndDates append the Start / End of every period, unconditionally and in order;",
 			"(K-partition-whole) no consumer reslices or indexes those lists with constants;",
 			"(K-utc) every date the module constructs is a UTC value (time.Date with time.UTC, no ParseInLocation with another location), so that window bounds, period ends and journal dates are comparable instants.",
+			"(K-week-bounds) the day offsets that StartOf/EndOf derive from the weekday, evaluated for the seven weekday classes, stay inside the date's own week and land on its Monday (start) or Sunday (end);",
+			"(K-month-bounds) the dates that StartOf/EndOf build from the month of the date, evaluated for the twelve month classes with year and day symbolic, are the first / last days of the month, quarter or year that contains the date;",
 		},
 		NotDecided: []string{
-			"the calendar arithmetic itself: StartOf/EndOf (weekday, month, quarter arithmetic), time.AddDate, that `--last n` keeps exactly n periods (the comparison operator of the limit), the correctness of the reversal loop's index arithmetic beyond its shape, dates before the first shown period. A change inside StartOf (seeded change C10-D) is not reported.",
+			"time.AddDate and the lengths of months (trusted); forms of StartOf/EndOf other than the ones K-week-bounds and K-month-bounds interpret (an offset derived from the weekday, a date built from year, month expression and constant day, AddDate with constants, siblings applied to the date); that `--last n` keeps exactly n periods (the comparison operator of the limit); the correctness of the reversal loop's index arithmetic beyond its shape.",
 		},
-		Rules: []Rule{RuleKPartChain, RuleKPartAlign, RuleKPartDates, RuleKPartitionWhole, RuleKUTC},
+		Rules: []Rule{RuleKPartChain, RuleKPartAlign, RuleKPartDates, RuleKPartitionWhole, RuleKUTC, RuleKWeekBounds, RuleKMonthBounds},
 	})
 }
 
@@ -91,12 +93,13 @@ func init() {
 			"(D-reject) every error return of the checker callbacks is control-dependent only on the reviewed conditions (account open?, same account?, quantity IsZero/Equal, NoCheck);",
 			"(C-sparse) no branch depends on the presence bit of a sparse Amounts entry (absent means zero).",
 			"(I-recheck) interning is atomic: a new account or commodity is inserted only after a membership test under the same exclusive lock, so one name has one object and positions keyed by it do not split;",
+			"(K-day-key) the key under which the builder files a day is an injective function of the date (the time itself, a mixed-radix integer of its components, or a full-date format): directives of one date form one day, of two dates two;",
 		},
 		NotDecided: []string{
 			"the iff itself: the comparison of quantities in assertions, the zero test on close, the text of diagnostics;",
 			"assertions on non asset/liability accounts (the checker tracks quantities only for A/L accounts).",
 		},
-		Rules: []Rule{RuleDProcessOrder, RuleKSortedDays, RuleKFifo, RuleDOpenClose, RuleDReject, RuleDCheckFirst, RuleCSparse, RuleIRecheck},
+		Rules: []Rule{RuleDProcessOrder, RuleKSortedDays, RuleKFifo, RuleDOpenClose, RuleDReject, RuleDCheckFirst, RuleCSparse, RuleIRecheck, RuleKDayKey},
 	})
 }
 
@@ -110,12 +113,13 @@ func init() {
 			"(D-push-once) each parsed file is pushed exactly once on every success path, and each cpr.Seq stage forwards each day exactly once.",
 			"(K-add-commutes) the journal builder accumulates directives order-free: Builder.Add only appends to bags, get-or-creates days and keeps a running minimum/maximum; no error return depends on earlier directives and nothing is deleted from the builder's maps; (K-nested-limit) the include loader has no concurrency limit that a deep include tree could exhaust;",
 			"(D-loader-reject) the loader constructs no error of its own except under the ancestor (include-cycle) test;",
+			"(K-day-key) the key under which the builder files a day is an injective function of the date;",
 		},
 		NotDecided: []string{
 			"byte equality of reports under permutation of the directives (no execution);",
 			"commutativity of the checker callbacks within one kind on one day (two opens, or two assertions, of one day are evaluated in arrival order; the verdict does not depend on it for journals the property admits, argued informally only).",
 		},
-		Rules: []Rule{RuleDProcessOrder, RuleKSortedDays, RuleAArrival, RuleAOrder, RuleKAddCommutes, RuleDIncludePath, RuleDLoaderReject, RuleDPushOnce, RuleKNestedLimit},
+		Rules: []Rule{RuleDProcessOrder, RuleKSortedDays, RuleAArrival, RuleAOrder, RuleKAddCommutes, RuleDIncludePath, RuleDLoaderReject, RuleDPushOnce, RuleKNestedLimit, RuleKDayKey},
 	})
 }
 
@@ -206,13 +210,15 @@ func init() {
 			"(K-remainder) divisor and parts come from the same partition value (Size() / EndDates()), and the remainder is added in exactly the iteration with index 0;",
 			"(K-accrual-dates) kept legs carry the transaction's date, split legs the partition's end dates.",
 			"(K-acct-predicates) IsIE (the legs that are split) is true exactly for INCOME and EXPENSES and IsAL exactly for ASSETS and LIABILITIES, by evaluating the two method bodies for the five values of the type enumeration;",
+			"(K-week-bounds) weekly accrual periods: the day offsets derived from the weekday land on the Monday / Sunday of the date's own week;",
+			"(K-month-bounds) monthly, quarterly and yearly accrual periods: StartOf/EndOf return the first / last day of the date's own period for every month class;",
 		},
 		NotDecided: []string{
 			"QuoRem's arithmetic (trusted library contract q*n + r = x);",
-			"the calendar partition itself (C11);",
+			"the calendar partition beyond what K-week-bounds and K-month-bounds decide about StartOf/EndOf (see C11);",
 			"that the accrual account nets to zero numerically (follows from the above by arithmetic, not checked).",
 		},
-		Rules: []Rule{RuleCPosting, RuleCPostings, RuleJPair, RuleFAcctTypes, RuleKAcctPredicates, RuleDDiv, RuleKRemainder, RuleKAccrualDates},
+		Rules: []Rule{RuleCPosting, RuleCPostings, RuleJPair, RuleFAcctTypes, RuleKAcctPredicates, RuleDDiv, RuleKRemainder, RuleKAccrualDates, RuleKWeekBounds, RuleKMonthBounds},
 	})
 }
 
@@ -298,11 +304,12 @@ func init() {
 			"(F-directive-types) ParseDirective, Builder.Add and the journal printer agree on the directive types;",
 			"(D-check-first) print runs the checker before printing.",
 			"(K-prices-order) no stage (the normal-form sort included) reorders a day's prices, whose order decides which of two same-day prices wins;",
+			"(K-swap-sign) the condition under which the pair builder exchanges credit and debit, evaluated on the nine sign states of (quantity, value), never holds for a state and for its negation: an exchanged booking is not exchanged again when it is read back;",
 		},
 		NotDecided: []string{
-			"the round trip itself (no execution): that the printed text re-parses to the same model, e.g. escaping inside descriptions (see C13 for quotes), posting sign normalisation, date format strings.",
+			"the round trip itself (no execution): that the printed text re-parses to the same model, e.g. escaping inside descriptions (see C13 for quotes), date format strings; of the posting sign normalisation only its stability on the nine sign states (K-swap-sign).",
 		},
-		Rules: []Rule{RuleFKeywords, RuleFFields, RuleFMultiline, RuleFModelOnly, RuleKPrintPairs, RuleKPricesOrder, RuleHQuotes, RuleCRound, RuleAOrder, RuleFDirectiveTypes, RuleDCheckFirst},
+		Rules: []Rule{RuleFKeywords, RuleFFields, RuleFMultiline, RuleFModelOnly, RuleKPrintPairs, RuleKPricesOrder, RuleHQuotes, RuleCRound, RuleAOrder, RuleFDirectiveTypes, RuleDCheckFirst, RuleKSwapSign},
 	})
 	claim(&Property{
 		ID: "C17",
